@@ -306,8 +306,9 @@ int filter_tee_header (struct filter *chain)
 		lerr (_("error closing output file %s"),
 			env.outfilename != NULL ? env.outfilename : "<stdout>");
 
-	while (wait (0) > 0) ;
-
+	/* The exit handler in flex_main() waits for the processes of the
+	 * header branch and folds their exit statuses into ours.
+	 */
 	FLEX_EXIT (0);
 	return 0;
 }
